@@ -1744,3 +1744,6 @@ mutant("c14-rt-importer-keeps-first-description-only", "C14", (I, """           
                     engine.description = value""", """                elif key == "description":
                     engine.description = engine.description or value.split(":")[0]"""), "T10/Engine.description")
 mutant("c14-rt-output-terms-before-defuzzifier-lost", "C14", (X, "        if variable.terms:\n            result += [(self.indent + self.term(term)) for term in variable.terms]\n        return self.separator.join(result)\n\n    def rule_block", "        if variable.terms and variable.defuzzifier:\n            result += [(self.indent + self.term(term)) for term in variable.terms]\n        return self.separator.join(result)\n\n    def rule_block"), "T10/")
+
+# ------------------------------------------------------------------------------------------ tolerance comparisons next to exact ones (rounds 7-8)
+mutant("c03-rectangle-tolerant-start", "C03", (T, "        y = self.height * np.where(np.isnan(x), np.nan, 1.0) * ((s <= x) & (x <= e))", "        y = self.height * np.where(np.isnan(x), np.nan, 1.0) * (((s <= x) | Op.is_close(s, x)) & (x <= e))"), "A3/Rectangle.membership/definition")
